@@ -41,15 +41,24 @@ func (s *Server) favIconFunc(w http.ResponseWriter, r *http.Request) {
 }
 
 // optionsHandlerFunc provides the allowed methods: the ones the route table serves for the requested path.
-func (s *Server) optionsHandlerFunc(w http.ResponseWriter, r *http.Request) {
-	allowed := []string{http.MethodOptions}
-	for _, method := range []string{http.MethodGet, http.MethodHead, http.MethodPost} {
-		if s.Router.Match(chi.NewRouteContext(), method, r.URL.Path) {
-			allowed = append(allowed, method)
+// router is the router the handler is registered on: chi's Match does not descend into a mounted
+// sub-router at its bare mount point (/vod, /vod/), so the sub-router is asked as well.
+func (s *Server) optionsHandlerFunc(router chi.Routes) http.HandlerFunc {
+	return func(w http.ResponseWriter, r *http.Request) {
+		routePath := r.URL.Path
+		if rctx := chi.RouteContext(r.Context()); rctx != nil && rctx.RoutePath != "" {
+			routePath = rctx.RoutePath // path inside the sub-router
 		}
+		allowed := []string{http.MethodOptions}
+		for _, method := range []string{http.MethodGet, http.MethodHead, http.MethodPost} {
+			if s.Router.Match(chi.NewRouteContext(), method, r.URL.Path) &&
+				router.Match(chi.NewRouteContext(), method, routePath) {
+				allowed = append(allowed, method)
+			}
+		}
+		w.Header().Set("Allow", strings.Join(allowed, ", "))
+		w.WriteHeader(http.StatusNoContent)
 	}
-	w.Header().Set("Allow", strings.Join(allowed, ", "))
-	w.WriteHeader(http.StatusNoContent)
 }
 
 func (s *Server) versionHandlerFunc(w http.ResponseWriter, r *http.Request) {
